@@ -105,7 +105,8 @@ func genBatch(r *rand.Rand, dir string, idx int) batchSpec {
 			sp.Marks = append(sp.Marks, mark)
 		}
 		sb.WriteString("snaptree\n")
-		sb.WriteString("exec vhelper environ\ngrabenv\n")
+		// the child's environment, seen by a program found through PATH or named by an explicit path
+		sb.WriteString([]string{"exec vhelper environ\ngrabenv\n", "exec $VHELPER environ\ngrabenv\n", "exec vhelper environ\ngrabenv\nexec $VHELPER environ\ngrabenv\n"}[r.Intn(3)])
 		addMark()
 		if sp.Ending == "fail-early" {
 			sb.WriteString("exists no-such-file-early\n")
@@ -256,7 +257,7 @@ func expectedTree(sp scriptSpec) []string {
 	return l
 }
 
-var wantEnv = []string{"$", "/", ":", "GORACE", "GOTRACEBACK", "HOME", "PATH", "PWD", "SETUPVAR", "TMPDIR", "WORK", "devnull", "exe"}
+var wantEnv = []string{"$", "/", ":", "GORACE", "GOTRACEBACK", "HOME", "PATH", "PWD", "SETUPVAR", "TMPDIR", "VHELPER", "WORK", "devnull", "exe"}
 
 type ccase struct {
 	Kind   string     `json:"kind"`
@@ -281,7 +282,7 @@ func main() {
 		return
 	}
 	vlib.Main("C04", "exploration", 12*time.Minute, func(r *vlib.Run) {
-		r.Rule("batches of 2-12 generated scripts per RunT call (explicit files incl. duplicate base names from different directories), each script: listing of $WORK first, child-process environment, own variable / file / sub-directory / background jobs (SIGINT-terminable and slow-to-die), a rendezvous at which all parallel scripts overlap, ownership re-check, read-only trees (0555/0444), three defer marks; endings pass / Skip or FailNow called on the script's T by a custom command while a slow-to-die job runs / fail early / fail late (a missing file, or a background start under a name a live job still holds) / failing plain wait with later jobs still running / skip / stop / failing Setup; retention none / TestWork / WorkdirRoot; both T styles; every batch runs twice (parallel with subtests released after RunT returned, and one script at a time) with a recording T, and every second batch a third time on the real *testing.T (a test binary built from checks/c04/realt), each in a process of its own as uid 65534 or root. Non-trivial/distinct = distinct (ending multiset, retention, mode, uid) batches in which the rendezvous completed.")
+		r.Rule("batches of 2-12 generated scripts per RunT call (explicit files incl. duplicate base names from different directories), each script: listing of $WORK first, child-process environment (program found through PATH or named by an explicit path), own variable / file / sub-directory / background jobs (SIGINT-terminable and slow-to-die), a rendezvous at which all parallel scripts overlap, ownership re-check, read-only trees (0555/0444), three defer marks; endings pass / Skip or FailNow called on the script's T by a custom command while a slow-to-die job runs / fail early / fail late (a missing file, or a background start under a name a live job still holds) / failing plain wait with later jobs still running / skip / stop / failing Setup; retention none / TestWork / WorkdirRoot; both T styles; every batch runs twice (parallel with subtests released after RunT returned, and one script at a time) with a recording T, and every second batch a third time on the real *testing.T (a test binary built from checks/c04/realt), each in a process of its own as uid 65534 or root. Non-trivial/distinct = distinct (ending multiset, retention, mode, uid) batches in which the rendezvous completed.")
 		r.Assume("grandchildren of started processes are not tracked; background helpers always die on SIGINT (possibly 150 ms late)")
 		base := vlib.Scratch()
 		os.Chmod(base, 0o777)
